@@ -82,7 +82,7 @@ def gen_op(sch, rnd, g, doc, slices, kinds=None):
 
     def pair():
         a = rnd.randint(0, n)
-        return a, rnd.randint(a, min(n, a + rnd.choice([0, 1, 2, 4, 8, n])))
+        return a, rnd.randint(a, min(n, a + rnd.choice([0, 1, 2, 4, 8, n, n])))
 
     def some_node(inline=None):
         names = [x for x, t in rs.nodes.items() if x != rs.top and (inline is None or t.inline == inline)]
